@@ -14,8 +14,10 @@ Record config := mkCfg {
 Record faults := mkFaults {
   ft_dest : list nat;    (* indices (among mutating destination commands) answered with an injected error *)
   ft_src : list nat;     (* indices (among GetFileContent requests) that fail on the source *)
-  ft_lag : nat }.        (* how many further boss steps happen before a destination error is noticed *)
-Definition no_faults := mkFaults [] [] 0.
+  ft_lag : nat;          (* how many further boss steps happen before a destination error is noticed *)
+  ft_stop : option nat }. (* Some n: the destination doer dies (process killed, link cut, or the boss exiting
+                             ahead of it) after n mutating commands: later ones are never executed *)
+Definition no_faults := mkFaults [] [] 0 None.
 
 Record result := mkRes {
   r_ok : bool;                   (* sync() returned Ok *)
@@ -92,6 +94,7 @@ Record rstate := mkR {
   rs_mut : nat; rs_get : nat; rs_budget : option nat }.
 
 Definition mem_nat (n : nat) (l : list nat) : bool := existsb (Nat.eqb n) l.
+Definition is_chunk (c : cmd) : bool := match c with CCreateOrUpdateFile _ _ _ _ => true | _ => false end.
 
 Definition do_step (fl : flavour) (ft : faults) (r : rstate) (s : bstep) : rstate :=
   let budget' := match rs_budget r with Some (S n) => Some n | x => x end in
@@ -100,12 +103,16 @@ Definition do_step (fl : flavour) (ft : faults) (r : rstate) (s : bstep) : rstat
       mkR (rs_d r) (rs_sent r) (rs_src r ++ [CGetFileContent p]) (rs_errs r) (mem_nat (rs_get r) (ft_src ft))
           (rs_mut r) (S (rs_get r)) budget'
   | DestCmd c =>
-      let injected := mutating c && mem_nat (rs_mut r) (ft_dest ft) in
-      let de := if injected then (rs_d r, Some EInjected) else doer_exec fl (rs_d r) c in
+      (* injected command-level failures stand for failures inside a handler that leave nothing behind; a
+         chunk's own failures are the write faults of Model/Fs.v (they set the doer's failed-transfer flag) *)
+      let injected := mutating c && negb (is_chunk c) && mem_nat (rs_mut r) (ft_dest ft) in
+      let stopped := mutating c && match ft_stop ft with Some n => Nat.leb n (rs_mut r) | None => false end in
+      let de := if stopped then (rs_d r, Some EKilled)
+                else if injected then (rs_d r, Some EInjected) else doer_exec fl (rs_d r) c in
       let mut' := if mutating c then S (rs_mut r) else rs_mut r in
       match snd de with
       | None => mkR (fst de) (rs_sent r ++ [c]) (rs_src r) (rs_errs r) false mut' (rs_get r) budget'
-      | Some e => mkR (fst de) (rs_sent r ++ [c]) (rs_src r) (rs_errs r ++ [e]) false mut' (rs_get r)
+      | Some e => mkR (fst de) (if stopped then rs_sent r else rs_sent r ++ [c]) (rs_src r) (rs_errs r ++ [e]) false mut' (rs_get r)
                       (match budget' with None => Some (ft_lag ft) | x => x end)
       end
   end.
